@@ -62,6 +62,7 @@ def im_core(ctx):
         c08.r08_1(ctx, c08.stream_fns(F) + [lag])
         c08.r08_3(ctx, c08.stream_fns(F), lag)
     c06.r06_5(ctx)
+    c06.r06_6(ctx)
 
 
 def util_stage_rules(ctx, which=("c09", "c10", "c11")):
@@ -82,4 +83,5 @@ def util_buffers(ctx):
         return
     c13.r13_1(ctx, vimp)
     c13.r13_3(ctx, vimp)
+    c13.r13_6(ctx, vimp)
     c13.r13_5(ctx, oimp)
